@@ -113,6 +113,16 @@ def gen(rng, tier, index):
         # a query that is not a descriptor but lies within a relative 5e-7 of one (the same configuration written out
         # and read back with seven digits): only an identical descriptor is left out of the sum
         Qq[0] = D[index % n] * (1.0 + 2.0**-21) + 2.0**-24 * float(D.std(axis=0).mean())
+    uexp = 0
+    if index % 5 == 2 and not bigq:
+        # the whole configuration in another length unit (an exact power of two between 2^-200 and 2^150): judged by
+        # the same oracles in that unit (no relation across units is claimed: the fspread localisation compares a
+        # squared length with a population, DESIGN 11.5)
+        uexp = (-200, -66, 40, 150)[(index // 5) % 4]
+        u_ = float(2.0**uexp)
+        D, Qq = D * u_, Qq * u_
+        G = None if G is None else G * u_
+        cell = None if cell is None else cell * u_
     loc = {"fpoints": float(rng.uniform(0.02, 0.9))} if rng.random() < 0.6 else {"fspread": float(10.0 ** rng.uniform(np.log10(0.05), np.log10(3.0)))}
     return {
         "D": D,
@@ -129,7 +139,7 @@ def gen(rng, tier, index):
         "past": bool(rng.random() < 0.35),  # the estimator was fitted to another grid and evaluated before
         "loc": loc,
         "Q": Qq,
-        "t": rng.normal(size=d) * 5,
+        "t": rng.normal(size=d) * 5 * float(2.0**uexp),
         "pd": rng.permutation(n),
         "pg": rng.permutation(M),
         "kd": rng.integers(-2, 3, size=(n, d)),
@@ -137,6 +147,7 @@ def gen(rng, tier, index):
         "kq": rng.integers(-2, 3, size=(nq, d)),
         "bigq": bool(bigq),
         "near_query": near,
+        "unit_exp": uexp,
     }
 
 
@@ -487,6 +498,8 @@ def run(case, j):
     j.close("score_samples == log of the documented mixture", s, want, scale, {"fp_events": [e[:2] for e in fpq.in_skmatter()[:3]]})
     j.close("score == sum of the log-densities", float(est.score(Q.copy())), float(np.sum(s)), 1e-9 * (1 + abs(float(np.sum(s)))))
     j.note("queries_judged", len(Q))
+    if case.get("unit_exp"):
+        j.note("models_in_other_length_units")
     if case.get("near_query") and not np.any(np.all(D == Q[0][None, :], axis=1)):
         j.note("queries_within_1e-6_relative_of_a_descriptor")
     j.note("queries_sharing_a_coordinate", int(sum(bool(np.any(D == q[None, :])) for q in Q)))
